@@ -88,6 +88,14 @@ def split_row(row):
 def check_case(f, rec):
     text = G.render(f)
     p = make_parser(text, ID)
+    if f.get("pdg_name"):
+        # the mother addressed by its PDG name must give the same list of modes as by its EvtGen name
+        from ..harness import impl as _impl
+        mo = next(s["m"] for s in f["stmts"] if s["k"] == "decay")
+        with _impl(ID, "list_decay_modes(pdg_name)"):
+            a, b = p.list_decay_modes(f["pdg_name"], pdg_name=True), p.list_decay_modes(mo)
+        if a != b or a != [ln["d"] for s in f["stmts"] if s["k"] == "decay" for ln in s["lines"]]:
+            raise Mismatch("C16:pdg-name-lookup", f"list_decay_modes({f['pdg_name']!r}, pdg_name=True) vs list_decay_modes({mo!r})", b, a)
     for k, o in enumerate([f["opts"]] + list(f.get("more_opts", []))):
         check_print(f, text, p, o, rec, first=(k == 0))
     if any(s["k"] == "define" for s in f["stmts"]):
